@@ -29,10 +29,19 @@ def _ans_none():
     return {"t": "none"}
 
 
+class RoleBonds(frozenset):
+    """a set of bonds returned by get_formed_bonds / get_broken_bonds / get_fleeting_bonds"""
+
+
 def norm_answer(name, val, idm: IdMap):
     """normalise a real return value into the spec's answer shape."""
     if val is None:
         return {"t": "none"}
+    if isinstance(val, RoleBonds):      # the spec's BondCode: 100 * lower + higher model identifier
+        try:
+            return {"t": "ids", "s": sorted(100 * min(idm.b(x) for x in bb) + max(idm.b(x) for x in bb) for bb in val)}
+        except TypeError:
+            return {"t": "other", "repr": repr(sorted(map(sorted, val)))[:80]}
     if isinstance(val, bool):
         return {"t": "bool", "b": val}
     if name in ("get_atom_type",):
@@ -219,6 +228,13 @@ def apply(g, op, idm: IdMap, other=None, swap=False, iter_kind="list"):
             is_query, val = True, frozenset(g.bonded_to(a))
         elif n == "component_of":
             is_query, val = True, frozenset(g.node_connected_component(a))
+        elif n == "n_components":
+            is_query, val = True, len(g.connected_components())
+        elif n == "role_bonds":
+            fn = {"formed": g.get_formed_bonds, "broken": g.get_broken_bonds, "fleeting": g.get_fleeting_bonds}[op["ch"]]
+            is_query, val = True, RoleBonds(frozenset(frozenset(bb) for bb in fn()))
+        elif n == "active_atoms":
+            is_query, val = True, frozenset(g.active_atoms(additional_layer=1 if op["flag"] else 0))
         elif n == "get_atom_stereo":
             is_query, val = True, g.get_atom_stereo(a)
         elif n == "get_bond_stereo":
